@@ -951,6 +951,15 @@ fn stream_reconstruct(rng: &mut Rng, out: &mut Out, thorough: bool) {
         );
         let sh = ci % SHARDS;
         out.files[sh].push(g_recon, case);
+        // BlockUnclesVerifier: the compact block's uncle hashes, the requested indexes, the hashes of the reply
+        {
+            let mut num: HashMap<packed::Byte32, u64> = HashMap::new();
+            let mut id = |h: packed::Byte32| -> u64 { let n = num.len() as u64 + 1; *num.entry(h).or_insert(n) };
+            let all: Vec<u64> = compact.uncles().into_iter().map(&mut id).collect();
+            let got: Vec<u64> = recv_uncles.iter().map(|u| id(u.hash())).collect();
+            out.files[sh].push(g_recon + 1, format!("mkUV {} {} {} {}", coq_list(&all, |x| coq_n(*x as u128)), coq_list(&uncles_index, |x| coq_nat(*x as u64)), coq_list(&got, |x| coq_n(*x as u128)), coq_bool(uncles_ok)));
+            out.descs[sh].entry("uverify".into()).or_default().push(json!({"stream": "reconstruct", "uncles": all, "uncles_index": uncles_index, "received": got, "verifier_ok": uncles_ok}));
+        }
         let mut d = ctx.clone();
         d["observed"] = json!(obs);
         if out.samples.len() < 3 && ci % 7 == 3 {
@@ -962,13 +971,14 @@ fn stream_reconstruct(rng: &mut Rng, out: &mut Out, thorough: bool) {
 }
 
 fn new_out(dir: &std::path::Path, cap: usize) -> Out {
-    let header = "From CKB Require Import Codec.Molecule gen.Schema Codec.Compact.";
+    let header = "From CKB Require Import Codec.Molecule gen.Schema Codec.Compact Codec.UnclesVerify.";
     let files: Vec<CaseFile> = (0..SHARDS)
         .map(|i| {
             let mut cf = CaseFile::new(dir, &format!("cases_{:02}", i), header);
             cf.group("mol", "mol_case", "check_mol");
             cf.group("frame", "N * N * option N * option N * option N", "check_frame");
             cf.group("recon", "recon_case", "check_recon");
+            cf.group("uverify", "uvcase", "check_uvcase");
             cf
         })
         .collect();
